@@ -302,12 +302,25 @@ impl Out {
     }
 
     pub fn serdev(&mut self, t: &str) {
+        #[allow(dead_code)]
+        fn _doc() {}
         let ans = guarded(|| match Version::parse(t) {
             Err(_) => "perr".to_string(),
             Ok(v) => match serde_json::to_string(&v) {
                 Err(_) => "ser-fail".into(),
                 Ok(j) => match serde_json::from_str::<Version>(&j) {
-                    Ok(w) => format!("ok {} same={}", hex(&j), b01(enc_version(&v) == enc_version(&w))),
+                    Ok(w) => {
+                        // the other ways back from JSON: a `Value`, a reader, and the same string spelled with an escape
+                        let via_value = serde_json::to_value(&v).ok().and_then(|x| serde_json::from_value::<Version>(x).ok());
+                        let via_reader = serde_json::from_reader::<_, Version>(j.as_bytes()).ok();
+                        let via_escape = serde_json::from_str::<Version>(&json_with_escape(&j)).ok();
+                        let all = [via_value, via_reader, via_escape];
+                        if all.iter().all(|x| x.as_ref().map(enc_version) == Some(enc_version(&w))) {
+                            format!("ok {} same={}", hex(&j), b01(enc_version(&v) == enc_version(&w)))
+                        } else {
+                            "deser-fail".into()
+                        }
+                    }
                     Err(_) => "deser-fail".into(),
                 },
             },
@@ -360,7 +373,17 @@ impl Out {
                 Err(()) => "panic".into(),
                 Ok(Err(_)) => "ser-fail".into(),
                 Ok(Ok(j)) => match serde_json::from_str::<Range>(&j) {
-                    Ok(w) => format!("ok {} eq={}", hex(&j), b01(r == w)),
+                    Ok(w) => {
+                        let via_value = serde_json::to_value(&r).ok().and_then(|x| serde_json::from_value::<Range>(x).ok());
+                        let via_reader = serde_json::from_reader::<_, Range>(j.as_bytes()).ok();
+                        let via_escape = serde_json::from_str::<Range>(&json_with_escape(&j)).ok();
+                        let all = [via_value, via_reader, via_escape];
+                        if all.iter().all(|x| x.as_ref() == Some(&w)) {
+                            format!("ok {} eq={}", hex(&j), b01(r == w))
+                        } else {
+                            "deser-fail".into()
+                        }
+                    }
                     Err(_) => "deser-fail".into(),
                 },
             },
@@ -760,5 +783,18 @@ fn main() {
             print!("{}", deep::input(&fam, n));
         }
         _ => usage(),
+    }
+}
+
+
+/// the same JSON string with its first character written as a `\uXXXX` escape (a deserializer then has to
+/// build an owned string)
+fn json_with_escape(j: &str) -> String {
+    let mut cs = j.chars();
+    match (cs.next(), cs.next()) {
+        (Some('"'), Some(c)) if c != '"' && c != '\\' && (c as u32) < 0x10000 => {
+            format!("\"\\u{:04x}{}", c as u32, cs.collect::<String>())
+        }
+        _ => j.to_string(),
     }
 }
